@@ -59,7 +59,12 @@ def hash_script_pubkeys(script_pubkeys):
 
 
 class Transaction(EmbitBase):
-    def __init__(self, version=2, vin=[], vout=[], locktime=0):
+    def __init__(self, version=2, vin=None, vout=None, locktime=0):
+        # a list written as a default value would be shared by all transactions
+        if vin is None:
+            vin = []
+        if vout is None:
+            vout = []
         self.version = version
         self.locktime = locktime
         self.vin = vin
